@@ -66,9 +66,10 @@ namespace occa {
   }
 
   memoryPool& memoryPool::swap(memoryPool &m) {
-    modeMemoryPool_t *modeMemoryPool_ = modeMemoryPool;
-    modeMemoryPool   = m.modeMemoryPool;
-    m.modeMemoryPool = modeMemoryPool_;
+    // Go through a third handle so that both objects' reference rings follow
+    memoryPool tmp(*this);
+    *this = m;
+    m = tmp;
     return *this;
   }
 
